@@ -3,6 +3,7 @@ package main
 import (
 	"encoding/json"
 	"fmt"
+	"net"
 	"strings"
 
 	"go.miragespace.co/specter/cmd/verifexport"
@@ -36,6 +37,12 @@ func c47alphabet(thorough bool) []c47sym {
 		{Name: "host", Raw: "example.com:443", Trim: "example.com:443", Host: "example.com", Invalid: true},
 		{Name: "blank", Raw: "  \t", Trim: ""},
 		{Name: "padv4", Raw: "  127.0.0.1:443\t", Trim: "127.0.0.1:443", Host: "127.0.0.1", Family: 4},
+		// case variants and near-misses of the special host: not the documented Fly host, not an IP
+		{Name: "FLYupper", Raw: "FLY-GLOBAL-SERVICES:443", Trim: "FLY-GLOBAL-SERVICES:443", Host: "FLY-GLOBAL-SERVICES", Invalid: true},
+		{Name: "FlyMixed", Raw: "Fly-Global-Services:443", Trim: "Fly-Global-Services:443", Host: "Fly-Global-Services", Invalid: true},
+		{Name: "flydot", Raw: "fly-global-services.:443", Trim: "fly-global-services.:443", Host: "fly-global-services.", Invalid: true},
+		{Name: "flyprefix", Raw: "fly-global-service:443", Trim: "fly-global-service:443", Host: "fly-global-service", Invalid: true},
+		{Name: "flysuffix", Raw: "fly-global-services.internal:443", Trim: "fly-global-services.internal:443", Host: "fly-global-services.internal", Invalid: true},
 	}
 	if thorough {
 		a = append(a,
@@ -158,6 +165,18 @@ func c47one(proto string, base, over []c47sym) (msg, class string, got []verifex
 	if len(got) != len(want) {
 		return fmt.Sprintf("length-%d-want-%d", len(got), len(want)), class, got, gotErr
 	}
+	// independent of the reference list: every accepted non-IP host is exactly the documented
+	// special host and is forced to the IPv4 network
+	for i, g := range got {
+		if g.Host != "" && net.ParseIP(g.Host) == nil {
+			if g.Host != verifexport.FlyGlobalServicesHost {
+				return fmt.Sprintf("non-IP-host-accepted[%d]", i), class, got, gotErr
+			}
+			if g.Network != proto+"4" {
+				return fmt.Sprintf("fly-host-not-forced-to-v4[%d]", i), class, got, gotErr
+			}
+		}
+	}
 	for i := range want {
 		if got[i].Address != want[i].Address {
 			return fmt.Sprintf("address[%d]", i), class, got, gotErr
@@ -218,7 +237,7 @@ func c47(c *report.Check) {
 	c.Set("evaluations", evals)
 	c.Set("distinct_nontrivial", dist.N())
 	c.Set("alphabet", len(alpha))
-	c.Set("rule", fmt.Sprintf("all base lists of length <= 3 x all override lists of length <= 2 over a %d-symbol alphabet (v4, v6, wildcard, Fly host, hostname, blank, padded duplicate%s) x proto {udp,tcp}; class = outcome kind + sequence of resulting networks", len(alpha), map[bool]string{true: ", second v4, same host other port, v6/v4 unspecified, padded Fly, empty string, localhost, padded v6", false: ""}[c.Thorough()]))
+	c.Set("rule", fmt.Sprintf("all base lists of length <= 3 x all override lists of length <= 2 over a %d-symbol alphabet (v4, v6, wildcard, Fly host, hostname, blank, padded duplicate, Fly-host look-alikes: upper case, mixed case, trailing dot, proper prefix, extended name%s) x proto {udp,tcp}; class = outcome kind + sequence of resulting networks", len(alpha), map[bool]string{true: ", second v4, same host other port, v6/v4 unspecified, padded Fly, empty string, localhost, padded v6", false: ""}[c.Thorough()]))
 	c.Set("samples", dist.Samples)
 	c.Set("exhaustive", true)
 	c.Assume("the statement does not define the result for an empty effective list: an error or an empty result are both accepted there",
